@@ -30,6 +30,7 @@ type Alpha struct {
 	SaveCS        bool  // SaveChangeSet with one of a few fixed change sets (only when nothing is pending)
 	ReadAll       bool  // one macro read-only operation that reads everything (warms node and fast caches)
 	Exports       bool  // open (and fully read) / close an export of a retained version: pins the version
+	Hold          bool  // once per history: keep the ImmutableTree of every retained version and re-read it later
 }
 
 func countKind(hist []Op, k OpKind) int {
@@ -153,6 +154,9 @@ func (a Alpha) Ops(w *World, s *Spec) []Op {
 				ops = append(ops, Op{Kind: OpExportOpen, Ver: v})
 			}
 		}
+	}
+	if a.Hold && m.Latest > 0 && w.NHolds == 0 {
+		ops = append(ops, Op{Kind: OpHold})
 	}
 	if a.Import {
 		for _, v := range m.Versions() {
